@@ -535,7 +535,7 @@ def judge_randfunc(spec, rec):
         funcs.append(f)
         if getattr(f, 'nin', None) != in_dim:
             raise Violation('randfunc-arity', 'input_dim=%d but function.nin = %r' % (in_dim, getattr(f, 'nin', None)))
-        vals = []
+        vals, copies = [], []
         for x in pts:
             v = f(*x)
             rec.calls()
@@ -557,10 +557,17 @@ def judge_randfunc(spec, rec):
                                 ratio=dev / amp)
             worst = max(worst, dev / amp)
             vals.append(v)
-        if any(not np.array_equal(np.asarray(vals[0]), np.asarray(v)) for v in vals[1:]):
+            copies.append(np.array(v, copy=True))
+        # a value handed out earlier must not change when the same function is evaluated elsewhere (a seeded change
+        # returned views of one reused output buffer: f(x) - f(y) == 0 inside a formula)
+        for x, v, c in zip(pts, vals, copies):
+            if not np.array_equal(np.asarray(v), c):
+                raise Violation('randfunc-returned-value-aliased', 'the value returned for f(%r) was %r and reads %r '
+                                'after f was evaluated at other points' % (x, short(c), short(v)))
+        if any(not np.array_equal(copies[0], c) for c in copies[1:]):
             varied = True
         if fi == 0:
-            first_vals = vals
+            first_vals = [c if out_dim > 1 else v for v, c in zip(vals, copies)]
         # wrong numbers of arguments must be refused
         for wrong in (in_dim - 1, in_dim + 1):
             status, res = call(f, *([0.5] * wrong))
@@ -574,7 +581,7 @@ def judge_randfunc(spec, rec):
     f0 = funcs[0]
     for x, v in zip(pts, first_vals):
         v2 = f0(*x)
-        if type(v2) is not type(v) or not np.array_equal(np.asarray(v), np.asarray(v2)):
+        if (out_dim == 1 and type(v2) is not type(v)) or not np.array_equal(np.asarray(v), np.asarray(v2)):
             raise Violation('randfunc-not-fixed', 'f(%r) was %r, later %r' % (x, short(v), short(v2)))
     rec.maximum('randfunc worst |f-center|/amplitude (input_dim%s)' % ('=1' if in_dim == 1 else '>1'), worst)
     rec.nontrivial(bool(opts) and cfg != RF_DEFAULTS and varied)
